@@ -165,6 +165,9 @@ func run(sc *Scenario, tr *Trace) {
 		case "get-alerts":
 			synctest.Wait()
 			smp.Alerts = in.getAlerts()
+			if st.Flags != nil {
+				smp.Filtered, smp.FilteredOK = in.getAlertsFiltered(*st.Flags)
+			}
 		case "get-groups":
 			synctest.Wait()
 			smp.Groups, smp.DispGroups = in.getGroups()
